@@ -10,6 +10,9 @@ for sid in sorted(os.listdir(root)):
         continue
     mp = os.path.join(root, sid, "meta.json")
     meta = json.load(open(mp))
+    if meta.get("retired"):
+        print("%-40s retired" % sid, flush=True)
+        continue
     props = [meta["breaks_property"]] + meta.get("also_run_against", [])
     res = {}
     for prop in props:
